@@ -45,10 +45,33 @@ def checks():
     return "\n".join(rows)
 
 
+def score():
+    rows = []
+    for mf in sorted(glob.glob(os.path.join(V, "seeded", "*", "meta.json"))):
+        m = json.load(open(mf))
+        n = os.path.basename(os.path.dirname(mf))
+        if n.startswith("H-"):
+            continue
+        rows.append((n, m["property"], "MISSED" in m.get("detected_by", ""), m.get("detects", [])))
+    tot = len(rows)
+    missed = [r[0] for r in rows if r[2]]
+    other = ["%s (by %s)" % (r[0], "/".join(r[3])) for r in rows if r[3] and r[1] not in r[3]]
+    return ("Score: %d independent seeded changes kept (one or two per claimed property); %d were caught by the check as it stood "
+            "when the seed arrived, %d were missed (or caught only fail-closed) and led to a new or stronger rule: %s.  Each of "
+            "those rules is described under its property in section 5 (\"As built ... added after a seeded change was missed\") "
+            "and is exercised by the thorough tier's self-test against the very seed that exposed the gap.  Seeds caught by a "
+            "*different* property's check than the one they were written for: %s.  C06b is caught fail-closed "
+            "(`unrecognised-shape`: a third loop that the table engine does not tabulate).  Lesson recorded for the reader: the "
+            "first versions decided necessary conditions that were *too narrow* in roughly one case out of three; the seeds, "
+            "not my own review, found that — which is why the second round of seeds (suffix `b`/`c`, written to avoid the "
+            "first seed's mechanism) was run for most properties."
+            % (tot, tot - len(missed), len(missed), ", ".join(missed), "; ".join(other) or "none"))
+
+
 def main():
     p = os.path.join(V, "DESIGN.md")
     s = open(p).read()
-    for name, fn in (("findings", findings), ("seeds", seeds), ("checks", checks)):
+    for name, fn in (("findings", findings), ("seeds", seeds), ("checks", checks), ("score", score)):
         pat = re.compile(r"(<!-- BEGIN:%s -->\n).*?(<!-- END:%s -->)" % (name, name), re.S)
         if pat.search(s):
             s = pat.sub(lambda m: m.group(1) + fn() + "\n" + m.group(2), s)
